@@ -55,6 +55,13 @@ theorem treeOfWbxml_safe (main : List Lang) (f lang cs : Nat) (bs : Bytes) :
       · rw [h] at he; cases he; simp
     · simp
 
+/-- A parser error is the tree stage's error. -/
+theorem treeOfWbxml_of_parse_error (main : List Lang) (f lang cs : Nat) (bs : Bytes) (e : Err)
+    (h : (parse { main := main, langForced := lang, metaCharset := cs } bs).result = .error e) :
+    treeOfWbxml main (f + 1) lang cs bs = .error e := by
+  rw [treeOfWbxml]
+  simp only [h]
+
 /-- `parse_text`/`xml_encode_text`: success or error 18 (base64 of an empty buffer). -/
 theorem xmlText_safe (c : XCfg) (s : Bytes) (st : XSt) : Safe (xmlText c s st) := by
   unfold xmlText
